@@ -199,6 +199,60 @@ def crash_rules(rep, funcs):
     rep.floor("integer divisions by a non-constant", 1)
 
 
+def lock_unwind_rule(rep):
+    """LOCK-UNWIND: mfront holds a machine-wide named semaphore (MFrontLockGuard, an automatic object) around its writes; if an exception
+    leaves main uncaught, std::terminate is called without unwinding the stack, the semaphore stays taken and every later run of mfront
+    waits for it for ever.  Rule: in main, every call that reaches MFront::exe (directly or through a closure) lies in a try block with a
+    catch-all handler; the only tolerated exception is the branch under the explicit '--no-terminate-handler' option."""
+    d = cfgdump([os.path.join(REPO, "mfront/src/main.cxx")], os.path.join(OUT, "C35", "dumpmain"), funcs=r"^main", root=REPO)
+    fs = load_functions(d)
+    mains = [f for f in fs if f.qname == "main" and f.parent is None]
+    if len(mains) != 1:
+        raise AnalysisBroken("main of mfront not found")
+    m = mains[0]
+    lam = {(f.unit, f.id): f for f in fs if f.parent is not None}
+
+    def reaches_exe(g):
+        return any(n["k"] == "CXXMemberCallExpr" and (n.get("callee") or "").endswith("MFront::exe") for n in g.stmts.values())
+    sites = []
+    for s_, n in m.stmts.items():
+        if n["k"] == "CXXMemberCallExpr" and (n.get("callee") or "").endswith("MFront::exe"):
+            sites.append(s_)
+        if n["k"] == "CXXOperatorCallExpr" and n.get("op") == "()":
+            g = lam.get((m.unit, n.get("calleeId")))
+            if g is not None and reaches_exe(g):
+                sites.append(s_)
+    if not sites:
+        raise AnalysisBroken("main: no call reaching MFront::exe")
+    pm = m.parent_map()
+    guarded = 0
+    for s_ in sites:
+        q, ok, optout = s_, False, False
+        while q in pm:
+            c = q
+            q = pm[q]
+            k = m.stmts[q]["k"]
+            if k == "CXXTryStmt" and m.kids(q) and m.kids(q)[0] == c:
+                ok = True       # in the try body; that one of the handlers is the catch-all is checked below
+            if k == "IfStmt" and "--no-terminate-handler" in m.text(m.stmts[q]["cond"]):
+                optout = True
+        rep.count("calls of main reaching MFront::exe")
+        if ok:
+            guarded += 1
+            rep.ok("main: the call reaching MFront::exe at %s is in a try block (the stack is unwound, the lock released)" % rel(m.short_loc(s_)))
+        elif optout:
+            rep.ok("main: the call at %s is the explicit --no-terminate-handler opt-out" % rel(m.short_loc(s_)))
+        else:
+            rep.fail("LOCK-UNWIND@main", "%s: main calls MFront::exe outside any try block: an exception thrown while the inter-process lock is held "
+                     "(MFrontLockGuard, e.g. an unwritable src/targets.lst.tmp) reaches std::terminate, the stack is not unwound, the semaphore "
+                     "stays taken and every later run of mfront by this user blocks for ever" % rel(m.short_loc(s_)))
+    if guarded == 0 and not any(v["key"] == "LOCK-UNWIND@main" for v in rep.violations):
+        rep.fail("LOCK-UNWIND@main", "no call of main reaching MFront::exe is in a try block")
+    src = open(os.path.join(REPO, "mfront/src/main.cxx")).read()
+    if guarded and not re.search(r"catch\s*\(\s*\.\.\.\s*\)", src):
+        rep.fail("LOCK-UNWIND@main#catch-all", "main has no catch (...) handler")
+
+
 def run(tier):
     rep = Report("C35", tier, "other", RULE)
     allu = units_under("mfront/src")
@@ -237,6 +291,7 @@ def run(tier):
     progress.scan(rep, sorted(set(lib)), r"^tfel::", rel, ACCEPTED, "libraries")
     rep.floor("loops examined for progress (libraries)", 25)
     rep.floor("loops examined for progress", 60)
+    lock_unwind_rule(rep)
     rep.floor("iterator dereference sites", 300)
     rep.assumptions += ["a necessary condition only: of termination, only 'no loop has a state-preserving trip' (LOOP-PROGRESS) and 'no unguarded recursion on files' are decided; the other sources of undefined behaviour are not decided",
                         "quick tier: the anchor units; thorough: every unit of mfront/src and mfront-query/src"]
